@@ -10,7 +10,7 @@ use crate::core::*;
 use crate::findings::Findings;
 use crate::props;
 use serde_json::{json, Value};
-use std::collections::{BTreeMap, HashSet, VecDeque};
+use std::collections::{BTreeMap, HashMap, HashSet, VecDeque};
 use std::io::{BufRead, BufReader, Write};
 use std::process::{Child, ChildStdin, Command, Stdio};
 use std::sync::mpsc::{channel, RecvTimeoutError, Sender};
@@ -23,9 +23,14 @@ macro_rules! out {
     }};
 }
 
-const MAX_INCIDENTS_PER_BLOCK: usize = 12;
+const MAX_INCIDENTS_PER_BLOCK: usize = 2;
+/// After this many blocks of one space have killed or stalled a worker the remaining blocks of
+/// that space are skipped (the run is a failure anyway; the evidence says `exhaustive: false`).
+const MAX_DEAD_BLOCKS_PER_SPACE: usize = 2;
+/// Deadline of the replay of a recorded hang.
+const HANG_REPLAY_TIMEOUT_S: u64 = 20;
 const STEP_CASE_TIMEOUT_S: u64 = 15;
-const HANG_CONFIRM_TIMEOUT_S: u64 = 60;
+const HANG_CONFIRM_TIMEOUT_S: u64 = 30;
 const MAX_REPORTED: usize = 5;
 
 enum Msg {
@@ -463,6 +468,7 @@ pub fn run(prop: &'static str, tier: Tier, seed: u64) -> i32 {
     let mut stepping = 0usize;
     let mut machinery_errors: Vec<String> = Vec::new();
     let mut capped = false;
+    let mut dead_blocks: HashMap<usize, usize> = HashMap::new();
 
     let assign = |w: &mut Worker, jobs: &mut VecDeque<(usize, u64)>| {
         if !w.alive || w.busy.is_some() || w.quitting {
@@ -528,6 +534,29 @@ pub fn run(prop: &'static str, tier: Tier, seed: u64) -> i32 {
                 let _ = w.child.wait();
                 if let Some((s, b, _)) = w.busy.take() {
                     // died in the middle of a block: pinpoint by stepping
+                    let dead = dead_blocks.entry(s).or_insert(0usize);
+                    *dead += 1;
+                    if *dead >= MAX_DEAD_BLOCKS_PER_SPACE {
+                        // fail fast: the remaining blocks of this space are not run
+                        let before = jobs.len();
+                        let skipped: Vec<(usize, u64)> = jobs.iter().filter(|j| j.0 == s).cloned().collect();
+                        jobs.retain(|j| j.0 != s);
+                        if before != jobs.len() {
+                            capped = true;
+                            agg.incomplete_blocks.extend(skipped);
+                        }
+                    }
+                    if *dead > MAX_DEAD_BLOCKS_PER_SPACE {
+                        // blocks that were already running when the space was cancelled
+                        agg.incomplete_blocks.push((s, b));
+                        if !jobs.is_empty() {
+                            let nid = workers.len();
+                            workers.push(spawn_worker(prop, tier, seed, nid, &tx));
+                            let nw = workers.last_mut().unwrap();
+                            assign(nw, &mut jobs);
+                        }
+                        continue;
+                    }
                     stepping += 1;
                     let tx2 = tx.clone();
                     std::thread::spawn(move || {
@@ -673,8 +702,9 @@ pub fn run(prop: &'static str, tier: Tier, seed: u64) -> i32 {
             return 2;
         }
         // replay twice; an alarm is only raised on a reproducible observation
-        let r1 = run_replay_file(&path, 180);
-        let r2 = run_replay_file(&path, 180);
+        let replay_deadline = if f.rule == "no_hang" { HANG_REPLAY_TIMEOUT_S } else { 180 };
+        let r1 = run_replay_file(&path, replay_deadline);
+        let r2 = run_replay_file(&path, replay_deadline);
         let crashy = f.rule == "no_crash" || f.rule == "no_hang";
         let reproduced = |r: &(i32, String)| if crashy { r.0 != 0 } else { r.0 == 1 };
         if r1 != r2 && !(crashy && reproduced(&r1) && reproduced(&r2)) {
